@@ -64,9 +64,10 @@ QueryClauses(pre, c, ret, info) ==
        <<"C11_ValidNamed", C11_ValidNamed(pre, c, info)>>,
        <<"C11_Canonical", C11_Canonical(c, info)>>,
        <<"C11_ValidityTracksEdits", C11_ValidityTracksEdits(pre, c, info)>>,
-       <<"C12_All", C12_All(pre, c, ret)>>,
-       <<"C12_Narrow", C12_Narrow(pre, c, ret)>>,
-       <<"C12_PinsOfWire", C12_PinsOfWire(pre, c, ret)>> >>
+       \* connectivity is judged on designs whose wires hold only local pins (see Hier!Local)
+       <<"C12_All", Local(pre) => C12_All(pre, c, ret)>>,
+       <<"C12_Narrow", Local(pre) => C12_Narrow(pre, c, ret)>>,
+       <<"C12_PinsOfWire", Local(pre) => C12_PinsOfWire(pre, c, ret)>> >>
 RetOf(r)  == IF "ret" \in DOMAIN r THEN r.ret ELSE <<>>
 InfoOf(r) == IF "info" \in DOMAIN r THEN r.info ELSE <<>>
 
@@ -88,7 +89,7 @@ CheckRecord(k) ==
     ELSE LET pre == Pre(r)  post == Post(r)  c == CallOf(r.call) IN
          /\ (IF r.same THEN TRUE ELSE Report("FAIL", k, StateClauses(post, LookupOf(r.state))))
          /\ Report("FAIL", k, ActionClauses(pre, c, r.out, post, FullPre(r), FullPost(r)))
-         /\ (IF c.op \in {"hq", "hcheck"} THEN Report("FAIL", k, QueryClauses(pre, c, RetOf(r), InfoOf(r))) ELSE TRUE)
+         /\ (IF c.op \in {"hq", "hcheck"} /\ r.out = "ok" THEN Report("FAIL", k, QueryClauses(pre, c, RetOf(r), InfoOf(r))) ELSE TRUE)
          /\ (IF c.op \in {"uniquify", "flatten"} THEN Report("FAIL", k, TransformClauses(pre, c, r.out, post)) ELSE TRUE)
          /\ (IF c.op = "edif_read" THEN Report("FAIL", k, EdifReadClauses(pre, c, r.out, post, RetOf(r))) ELSE TRUE)
          /\ (IF c.op = "file_read" THEN Report("FAIL", k, FileReadClauses(c, r.out, post, RetOf(r))) ELSE TRUE)
